@@ -1046,4 +1046,21 @@ theorem tailFrom_eq_of_no_key {Q : List (Int × Rat)} {lo hi : Int}
   · have a : lo ≤ e.1 := by omega
     simp [a, h1]
 
+/-! ### the hypotheses of (D) and (R) are satisfiable -/
+
+example : NonnegRows [[0, 3], [1, 0]] ∧ ([[0, 3], [1, 0]] : List (List Int)) ≠ [] ∧
+    Adm 1 2 (fun k => if k = 2 then 1 else 0) := by
+  refine ⟨by intro r hr x hx; simp at hr; rcases hr with rfl | rfl <;> simp at hx <;> omega,
+    by simp, ?_, ?_⟩
+  · intro k hk
+    have : k ≠ 2 := by omega
+    simp [this]
+  · intro k hk
+    have : k ≠ 2 := by omega
+    simp [this]
+
+example : Reach (pairRows (1 / 10) [[1 / 4]]) (1 / 4, 0) := by
+  refine ⟨(1 / 4, 0), ?_, (0, 0), rfl, by simp⟩
+  simp [pairRow, floorRow, rowOffset, listMin]
+
 end LMV.Tfm
